@@ -38,9 +38,9 @@ TECHNIQUE = "runtime contracts (icontract postconditions) against brute-force ob
 ASSUMPTIONS = ["R-words"]
 N = {"quick": 6, "thorough": 8}
 FLOORS = {
-    "quick": {"nontrivial": 120, "counters": {"bij.constructed_checked": 350, "bij.points_mapped": 20000,
-                                               "iso.symmetry_checked": 900, "iso.answer_false": 100,
-                                               "c12.reflexivity_checked": 700, "bij.loaded_checked": 150,
+    "quick": {"nontrivial": 100, "counters": {"bij.constructed_checked": 350, "bij.points_mapped": 20000,
+                                               "iso.symmetry_checked": 900, "iso.answer_false": 60,
+                                               "c12.reflexivity_checked": 500, "bij.loaded_checked": 150,
                                                "c12.non_identity_bijections": 15}},
     "thorough": {"nontrivial": 2400, "counters": {"bij.constructed_checked": 7000, "bij.points_mapped": 800000,
                                                    "iso.symmetry_checked": 18000, "iso.answer_false": 2000}},
